@@ -52,7 +52,7 @@ func runC09(c *Ctx, r *Report) {
 	r.Rule("C09.R4", "guarded allocation: make / strings.Repeat / string concatenation sized by program values is dominated by the memory guard on that size; a guarded size that is a product of program values is protected against overflow; SizeOk rejects negative sizes")
 	r.Rule("C09.R9", "the limits of the command line reach every state: wherever packages main and repl call eval.NewState() in a function that has a repl.Options value at hand, the new state's MaxDepth, MaxValueLen and NoReg are stored from the Options fields of the same name")
 	r.Rule("C09.R6", "live figures: the value object.FreeMemory returns is computed from a debug.SetMemoryLimit(-1) query and a runtime.ReadMemStats reading made by that very call, and from no package-level variable")
-	r.Rule("C09.R7", "deadline inheritance: wherever package eval or extensions creates an eval.State (NewBlankState/NewState) in a function that has a running *State at hand, the new state's Context is assigned from a running state's Context")
+	r.Rule("C09.R7", "deadline and depth inheritance: wherever package eval or extensions creates an eval.State (NewBlankState/NewState) in a function that has a running *State at hand, the new state's Context and depth are assigned from a running state's")
 	r.Rule("C09.R8", "deadline hand-back: in package extensions, after a store of a deadline-free context (context.WithCancel(context.Background())) into State.Context, every path to a return (followed with correlated tests of state fields against nil) passes another store to State.Context or a defer of a closure that makes one")
 	r.Rule("C09.R5", "recovery: EvalOne defers a recover that resets the state, installs a per-input context from MaxDuration and defers its cancel; the wasm entry passes a depth and a duration limit")
 
@@ -718,51 +718,57 @@ func (c *Ctx) checkProgramLoopsAndAllocs(r *Report) {
 					continue
 				}
 				n7++
-				inherits := false
-				for _, ref := range *cv.Referrers() {
-					fa, ok := ref.(*ssa.FieldAddr)
-					if !ok || fa.Field != ctxIdx {
-						continue
-					}
-					for _, r2 := range *fa.Referrers() {
-						st, ok := r2.(*ssa.Store)
-						if !ok || st.Addr != ssa.Value(fa) {
+				inheritsField := func(fidx int) bool {
+					inherits := false
+					for _, ref := range *cv.Referrers() {
+						fa, ok := ref.(*ssa.FieldAddr)
+						if !ok || fa.Field != fidx {
 							continue
 						}
-						// the stored value comes (possibly through a phi) from another state's Context
-						seen := map[ssa.Value]bool{}
-						var from func(v ssa.Value) bool
-						from = func(v ssa.Value) bool {
-							if v == nil || seen[v] {
-								return false
+						for _, r2 := range *fa.Referrers() {
+							st, ok := r2.(*ssa.Store)
+							if !ok || st.Addr != ssa.Value(fa) {
+								continue
 							}
-							seen[v] = true
-							if ld, ok := v.(*ssa.UnOp); ok {
-								if lfa, ok := ld.X.(*ssa.FieldAddr); ok && lfa.Field == ctxIdx && isStatePtr(lfa.X.Type()) && lfa.X != ssa.Value(cv) {
-									return true
+							// the stored value comes (possibly through a phi or a local) from another state's field
+							seen := map[ssa.Value]bool{}
+							var from func(v ssa.Value) bool
+							from = func(v ssa.Value) bool {
+								if v == nil || seen[v] {
+									return false
 								}
-								if al, ok := ld.X.(*ssa.Alloc); ok {
-									for _, ar := range *al.Referrers() {
-										if ast, ok := ar.(*ssa.Store); ok && ast.Addr == ssa.Value(al) && from(ast.Val) {
+								seen[v] = true
+								if ld, ok := v.(*ssa.UnOp); ok {
+									if lfa, ok := ld.X.(*ssa.FieldAddr); ok && lfa.Field == fidx && isStatePtr(lfa.X.Type()) && lfa.X != ssa.Value(cv) {
+										return true
+									}
+									if al, ok := ld.X.(*ssa.Alloc); ok {
+										for _, ar := range *al.Referrers() {
+											if ast, ok := ar.(*ssa.Store); ok && ast.Addr == ssa.Value(al) && from(ast.Val) {
+												return true
+											}
+										}
+									}
+								}
+								if phi, ok := v.(*ssa.Phi); ok {
+									for _, e := range phi.Edges {
+										if from(e) {
 											return true
 										}
 									}
 								}
+								return false
 							}
-							if phi, ok := v.(*ssa.Phi); ok {
-								for _, e := range phi.Edges {
-									if from(e) {
-										return true
-									}
-								}
+							if from(st.Val) {
+								inherits = true
 							}
-							return false
-						}
-						if from(st.Val) {
-							inherits = true
 						}
 					}
+					return inherits
 				}
+				inherits := inheritsField(ctxIdx)
+				r.Check(inheritsField(fieldIndex(stateT, "depth")), "C09.R7", ssaFuncName(fn), "a state created next to a running one inherits its depth", c.Pos(cv.Pos()),
+					"the new eval.State evaluates program text on behalf of the running one (macro bodies, nested unjson) but starts counting depth at 0: recursion through it never reaches the limit and ends in a fatal Go stack overflow (m = macro(){eval(\"m()\"); quote(1)}; m())")
 				r.Check(inherits, "C09.R7", ssaFuncName(fn), "a state created next to a running one inherits its Context", c.Pos(cv.Pos()),
 					"the new eval.State evaluates program text (nested eval/unjson, macro bodies) but its Context is never set from the state already running: evalInternal only tests a non-nil Context, so that evaluation ignores the deadline (unjson(\"for true {}\") never returns)")
 			}
